@@ -18,6 +18,7 @@ import (
 	"strings"
 
 	"github.com/gokrazy/rsync/internal/rsyncdconfig"
+	"github.com/gokrazy/rsync/internal/rsyncopts"
 	"github.com/gokrazy/rsync/internal/rsyncos"
 	"github.com/google/shlex"
 	"golang.org/x/crypto/ssh"
@@ -29,6 +30,8 @@ type anonssh struct {
 	cfg   *rsyncdconfig.Config
 	main  mainFunc
 	osenv *rsyncos.Env
+	// anonymous is set for listeners without authorized keys
+	anonymous bool
 }
 
 // env is a Environment Variable request as per RFC4254 6.4.
@@ -73,6 +76,14 @@ func (s *session) request(ctx context.Context, req *ssh.Request) error {
 		}
 
 		s.anonssh.osenv.Logf("cmdline: %q", cmdline)
+		if s.anonssh.anonymous {
+			// Anyone can connect to this listener: the only thing a
+			// session may do is speak the rsync daemon protocol against
+			// the configured modules.
+			if err := daemonProtocolOnly(s.anonssh.osenv, cmdline); err != nil {
+				return err
+			}
+		}
 		// 2021/09/12 21:25:34 cmdline: ["rsync" "--server" "--daemon" "."]
 		go func() {
 			stderr := s.channel.Stderr()
@@ -103,6 +114,24 @@ func (s *session) request(ctx context.Context, req *ssh.Request) error {
 		return fmt.Errorf("unknown request type: %q", req.Type)
 	}
 
+	return nil
+}
+
+// daemonProtocolOnly refuses every command line other than the one an rsync
+// client uses to reach a daemon over a remote shell (rsync --server
+// --daemon .): no client-mode transfers, no remote-shell options, no plain
+// server mode on arbitrary paths.
+func daemonProtocolOnly(osenv *rsyncos.Env, cmdline []string) error {
+	if len(cmdline) == 0 {
+		return fmt.Errorf("empty command line")
+	}
+	pc := rsyncopts.NewContext(rsyncopts.NewOptionsWithGokrazyDefaults(osenv))
+	if err := pc.ParseArguments(osenv, cmdline[1:]); err != nil {
+		return err
+	}
+	if !pc.Options.Daemon() || !pc.Options.Server() {
+		return fmt.Errorf("only the rsync daemon protocol (rsync --server --daemon .) is available on this listener, refusing %q", cmdline)
+	}
 	return nil
 }
 
@@ -278,9 +307,10 @@ func Serve(ctx context.Context, osenv *rsyncos.Env, ln net.Listener, listener *L
 	}()
 
 	as := &anonssh{
-		cfg:   cfg,
-		main:  main,
-		osenv: osenv,
+		cfg:       cfg,
+		main:      main,
+		osenv:     osenv,
+		anonymous: listener.authorizedKeys == nil,
 	}
 
 	config := &ssh.ServerConfig{
